@@ -14,14 +14,16 @@ def main(argv):
     seed = int(os.environ.get("VERIF_SEED", "1") or "1")
     if argv[1] == "--replay":
         out, _ = core.replay_file(prop, argv[2])
-        if out.bucket is None:
-            return 0
-        kf = core.Known().match(prop, out.bucket, out.sig)
-        if kf is not None:
-            print(f"KNOWN-FINDING: property={prop} {kf['what']} [{kf['id']}]")
-            return 0
-        print(f"VIOLATION property={prop} replay={argv[2]}")
-        return 1
+        rc = 0
+        known = core.Known()
+        for bucket, sig, _detail in core.all_viols(out):
+            kf = known.match(prop, bucket, sig or {})
+            if kf is not None:
+                print(f"KNOWN-FINDING: property={prop} {kf['what']} [{kf['id']}]")
+            else:
+                print(f"VIOLATION property={prop} replay={argv[2]}")
+                rc = 1
+        return rc
     tier = argv[1]
     if tier not in ("quick", "thorough"):
         tier = os.environ.get("VERIF_TIER", "quick")
